@@ -1,5 +1,6 @@
 import logging
 import os
+import re
 import six
 from contextlib import contextmanager
 from insights.util import streams, subproc
@@ -208,7 +209,12 @@ class ExecutionContext(six.with_metaclass(ExecutionContextMeta)):
             output = raw
 
         if split:
-            output = output.splitlines()
+            # newline characters only: `str.splitlines` also breaks a line at
+            # form feeds, NEL, FS/GS/RS and U+2028/2029, which neither grep nor
+            # reading the same text from a file does
+            output = re.split(r"\r\n|\r|\n", output)
+            if output[-1] == "":
+                output.pop()
 
         return (rc, output) if keep_rc else output
 
